@@ -39,6 +39,7 @@ INFO = {
         'remotely_queued is left out of the field comparison when a peer status change lands inside the window',
     ],
 }
+INFO['rule'] += ' Later additions: (25 %) the uploader offers the file over its own connection while our queue attempt still connects; (uploads) the file connection is reset mid-file after the control connections were dropped and the reachability changed, and the peer asks again; a duplicated PeerTransferRequest.'
 
 W = 300.0
 REACH = ('fast', 'slow', 'blackhole', 'dead', 'refused')
